@@ -1,4 +1,5 @@
 import PlumpyModel.PM.Proof10
+import PlumpyModel.PM.LProof13
 /-!
 # C02 — all reports of a terminated process's outcome agree
 
@@ -174,5 +175,45 @@ example : let c := run wait1 (init 0) [.tick, .fail (.user 2)]
 example : let c := run wait1 (init 0) [.tick]
     c.st = .waiting 1 0 none [] ∧ c.pc = .awaitWaiting 0 ∧ c.wfs[0]? = some .pending := by decide +kernel
 end
+
+/-!
+## with control requests issued DURING transitions (listeners, state-event callbacks)
+
+Model: `PMF.L` (lean/PlumpyModel/PM/Listener.lean; see the section of the same name in `Props/C04.lean`).  The exiting / entering
+callbacks run exactly where the invariant is temporarily broken (the future is resolved by `on_entering` before the new state object
+is assigned); the requests made there are deferred or refused and change nothing the reports of the outcome depend on.
+-/
+namespace L
+
+/-- **agreement at termination, with listeners**: for every program, every plan of `pause()` / `play()` / `kill()` calls made from
+inside notifications and every history of events, in every terminal configuration reached the future holds exactly the outcome of
+the state object, the process is closed, the cleanups ran exactly once and listeners received exactly one terminal notification —
+also when a listener's `kill()` arrived during the transition into FINISHED (it is not enacted: the process stays FINISHED with its
+outputs), or during the enactment of another request. -/
+theorem C02_listener_outcome_agrees (P : Prog) (nf : Nat) (plan : Plan) (evs : List Ev)
+    (ht : terminal (runL P (initL nf plan) evs).c.st.label = true) :
+    let c := (runL P (initL nf plan) evs).c
+    outcomeOf c.st = some c.fut ∧ c.closed = true ∧ c.cleanups = 1 ∧ termCount c.notif = 1 := by
+  have h := (runL_inv2 P (initL nf plan) evs (inv2_init nf)).term ht
+  exact ⟨h.2.2.2, h.1, h.2.1, h.2.2.1⟩
+
+/-- … and nothing is reported while the process is live -/
+theorem C02_listener_nothing_reported_while_live (P : Prog) (nf : Nat) (plan : Plan) (evs : List Ev)
+    (hl : terminal (runL P (initL nf plan) evs).c.st.label = false) :
+    let c := (runL P (initL nf plan) evs).c
+    (c.fut = .pending ∨ c.fut = .cancelled) ∧ c.closed = false ∧ c.cleanups = 0 ∧ termCount c.notif = 0 :=
+  (runL_inv2 P (initL nf plan) evs (inv2_init nf)).live hl
+
+-- non-vacuity: a kill from the entering phase of the transition into FINISHED; a kill from `on_process_running`
+section
+private def one : Prog := fun _ _ _ _ => ⟨0, .ret (.stop (some 3) true)⟩
+example : (runL one (initL 0 [(.entering, 2, .kill)]) [.tick]).c.st = .finished (some 3) true ∧
+    (runL one (initL 0 [(.entering, 2, .kill)]) [.tick]).c.fut = .result := by decide +kernel
+example : (runL one (initL 0 [(.running, 1, .kill)]) [.tick]).c.st = .killed ∧
+    (runL one (initL 0 [(.running, 1, .kill)]) [.tick]).c.fut = .exc .killedErr ∧
+    (runL one (initL 0 [(.running, 1, .kill)]) [.tick]).c.cleanups = 1 := by decide +kernel
+end
+
+end L
 
 end PMF
